@@ -170,9 +170,15 @@ def c14(tier, seed):
         for n in ([1024, 1025, 2049] if tier == "quick" else [1023, 1024, 1025, 2047, 2048, 2049, 3000, 4096]):
             for _ in range(3 if tier == "quick" else 12):
                 rows.append((n, rng.randint(0, 2 * n + 2), up, rng.choice(["lin", "all"])))
-    rows = sorted(set(rows))
+    rows = [r_ + ("",) for r_ in sorted(set(rows))]
+    # the format spec's width / fill / alignment / zero / alternate flags must not add anything to the digits
+    for spec in ("w", "fill", "zero", "alt"):
+        for n in ([0, 1, 3, 16, 33, 1024, 1025] if tier == "quick" else [0, 1, 2, 3, 15, 16, 17, 33, 1023, 1024, 1025, 2049, 4096]):
+            for p_ in sorted({-1, 0, 1, 3, n, 2 * n - 1 if n else 0, 2 * n + 1}):
+                for up in (0, 1):
+                    rows.append((n, p_, up, "lin", spec))
     scn = os.path.join(c.dir, "hex.scn")
-    open(scn, "w").write("".join("%d %d %d %s\n" % r_ for r_ in rows))
+    open(scn, "w").write("".join(("%d %d %d %s %s" % r_).rstrip() + "\n" for r_ in rows))
     c.cov["exhaustive"] = True
     c.cov["bounds"] = {"model": "N in %s with every precision 0..2N+2; N in %s with boundary precisions; both cases" % (("{0,1,2,3,7,8,15,16,17,32,33}", "{1024,1025,2049}") if tier == "quick" else ("0..17, 31..33", "{1023,1024,1025,2047,2048,2049,3000,4096}")),
                        "rows executed": len(rows)}
